@@ -622,7 +622,7 @@ def number_of_fibers(plate, **kwargs):
         nfiber[k] = platentotal[(plateplate == platevec[k]) &
                                 (platemjd == mjd[k]) &
                                 (platerun2d == run2d) &
-                                (platerun1d == run1d)]
+                                (platerun1d == run1d)].item()
     return nfiber
 
 
